@@ -324,6 +324,9 @@ env_family.serve()
 '''
 
 
+_KEPT = {}
+
+
 def _do_op(op, sandbox):
     """Execute one repository operation inside the current process; returns a
     picklable observation.  Paths inside op are relative to the sandbox."""
@@ -371,6 +374,20 @@ def _do_op(op, sandbox):
         if not oc.ok:
             return {"exc": oc.excname()}
         return {"raw": mask_creation_date(oc.raw)}
+    if kind == "recheck" and op.get("via") == "lib" and op.get("keep_object"):
+        # the interpreter keeps the Checker object of an earlier identical request and asks it again (a fresh
+        # interpreter has none and builds one): the object may not remember anything that matters
+        key = (p(op["meta"]), p(op["content"]))
+        recheck = drive.mod("recheck")
+        try:
+            chk = _KEPT.get(key)
+            if chk is None:
+                chk = _KEPT[key] = recheck.Checker(*key)
+            oc = drive._as_number(drive.Outcome(ret=chk.results()))
+            return {"ret": oc.ret}
+        except BaseException as exc:  # noqa
+            _KEPT.pop(key, None)
+            return {"exc": type(exc).__name__}
     if kind == "recheck":
         oc = drive.recheck_lib(p(op["meta"]), p(op["content"])) if op.get("via") == "lib" else \
             drive.recheck_cli(p(op["meta"]), p(op["content"]), prefix=op.get("prefix") or ())
@@ -617,6 +634,9 @@ class C09:
                 continue
             if c < 0.28:
                 hist.append(mk_mut())
+                kept = [h for h in hist if h.get("keep_object")]
+                if kept and rng.random() < 0.5:
+                    hist.append(dict(kept[-1]))         # the same request again, after the payload changed
             elif c < 0.5:
                 if rng.random() < 0.75:
                     hist.append(mk_create())
@@ -627,6 +647,7 @@ class C09:
             elif c < 0.65 and metas:
                 m, _ = rng.choice(metas)
                 hist.append({"op": "recheck", "meta": m, "content": rng.choice(["p", "."]), "via": rng.choice(["lib", "cli"]),
+                             "keep_object": rng.random() < 0.5,
                              "prefix": rng.choice([None, None, ["-q"], ["-v"]])})
             elif c < 0.75 and metas:
                 m, _ = rng.choice(metas)
